@@ -377,6 +377,75 @@ def main():
             check_common(p, proj, fails, key, {prop})
             for f in fails[before:]:
                 f["input"] = text
+        if prop in ("C04", "C11"):
+            # gaplength sub-universe: a gap counted in WORKING time of the project calendar, at several resolutions, also
+            # larger than the horizon (C11: then the successor is unscheduled with a warning, nothing is raised)
+            for k in range(n // 3):
+                gran = rng.choice([3600, 1800, 900])
+                gap = rng.choice([1, 2, 5, 9, 30, 900])
+                e1, e2 = rng.choice(["1h", "3h", "8h", "90min"]), rng.choice(["1h", "3h"])
+                text = (f'project prj "P" 2025-01-06 +3w {{ timezone "UTC"' + (f" timingresolution {gran // 60}min" if gran != 3600 else "") + ' }\n'
+                        'resource r "r" {}\nresource q "q" {}\n'
+                        f'task a "a" {{ effort {e1} allocate r }}\ntask b "b" {{ effort {e2} allocate q depends a {{ gaplength {gap}h }} }}\n')
+                key = f"{prop}/gaplength/{SEED}/{k}"
+                try:
+                    proj = run(text)
+                except Exception as e:  # noqa
+                    fails.append({"clause": f"{prop}:exception" if prop == "C11" else "C04:exception", "key": key,
+                                  "detail": f"{type(e).__name__}: {e}", "input": text})
+                    continue
+                evals += 1
+                record(key, text)
+                dts = dates(proj)
+                if prop == "C04" and dts["a"][2] and dts["b"][2]:
+                    # working seconds (default calendar) between a's end and b's start must cover the gap
+                    t_, work = dts["a"][1], 0.0
+                    while t_ < dts["b"][0]:
+                        step = min(dt.timedelta(seconds=gran - (t_.minute * 60 + t_.second) % gran), dts["b"][0] - t_)
+                        if default_working(t_):
+                            work += step.total_seconds()
+                        t_ += step
+                    if work + 1 < gap * 3600:
+                        fails.append({"clause": "C04:gaplength", "key": key, "input": text,
+                                      "detail": f"b starts {dts['b'][0]}, only {work / 3600:.2f} working hours after a's end {dts['a'][1]} (gaplength {gap}h)"})
+        if prop == "C06":
+            # ALAP sub-universe (whole-hour efforts; ALAP tasks sharing ONE resource and a slot are the recorded finding):
+            # teams whose members have different shifts / one busy member, a container limit used up by a sibling.
+            # The reported end lies in the last booked slot, the reported start in the first booked slot.
+            for k in range(n // 3):
+                e1, e2 = rng.choice([2, 3, 5, 6]), rng.choice([2, 3, 4, 6])
+                shape = rng.choice(["shifts", "busy", "container-limit", "alone"])
+                head = 'project prj "P" 2025-01-06 +2w { timezone "UTC" }\n'
+                if shape == "shifts":
+                    body = ('resource r1 "R1" { workinghours mon - fri 09:00 - 17:00 }\nresource r2 "R2" { workinghours mon - fri 09:00 - 13:00 }\n'
+                            f'task b "B" {{ scheduling alap end 2025-01-10-17:00 effort {e1}h allocate r1, r2 }}\n')
+                elif shape == "busy":
+                    body = ('resource r1 "R1" {}\nresource r2 "R2" {}\n'
+                            f'task a "A" {{ scheduling alap end 2025-01-10-17:00 effort {e2}h allocate r2 priority 900 }}\n'
+                            f'task b "B" {{ scheduling alap end 2025-01-10-17:00 effort {e1}h allocate r1, r2 }}\n')
+                elif shape == "container-limit":
+                    body = ('resource r1 "R1" {}\nresource r2 "R2" {}\ntask c "C" {\n  limits { dailymax 2h }\n'
+                            f'  task a "A" {{ scheduling alap end 2025-01-10-17:00 effort 2h allocate r1 }}\n'
+                            f'  task b "B" {{ scheduling alap end 2025-01-10-17:00 effort {e1}h allocate r2 }}\n}}\n')
+                else:
+                    body = f'resource r1 "R1" {{}}\ntask b "B" {{ scheduling alap end 2025-01-10-17:00 effort {e1 + 6}h allocate r1 }}\n'
+                text = head + body
+                key = f"C06/alap/{SEED}/{k}"
+                proj = run(text)
+                evals += 1
+                record(key, text)
+                led = ledger(proj)
+                for t in proj.tasks:
+                    if not t.leaf() or not t.get("scheduled", 0):
+                        continue
+                    mine = sorted({sl for slots in led.values() for sl, lst in slots.items() if any(tf == t.fullId for tf, _ in lst)})
+                    if not mine:
+                        continue
+                    s_, e_ = t.get("start", 0), t.get("end", 0)
+                    first_lo, last_lo = proj.idxToDate(mine[0]), proj.idxToDate(mine[-1])
+                    if not (first_lo <= s_ < first_lo + dt.timedelta(hours=1)) or not (last_lo < e_ <= last_lo + dt.timedelta(hours=1)):
+                        fails.append({"clause": "C06:alap-frame", "key": key, "input": text,
+                                      "detail": f"{t.fullId}: reported {s_}..{e_}, first booked slot {first_lo}, last booked slot {last_lo}"})
         if prop == "C03":
             # team sub-universe: two members of efficiency 1, whole-slot efforts (a final partial slot is the recorded
             # finding D2), optional task limit restricted to ONE member (a limit shared by the members is finding D17),
@@ -434,11 +503,13 @@ def main():
             # group / task / weekly limits sub-universe: a limit on a resource group counts the work of all its members, a
             # limit on a task (or container) counts the work of all tasks below it, weekly limits count per ISO week
             for k in range(n // 2):
-                glim = rng.choice(["dailymax 5h", "dailymax 3h", "weeklymax 12h", "weeklymax 20h"])
-                tlim = rng.choice(["", "limits { dailymax 2h }", "limits { weeklymax 6h }", "limits { dailymax 3h }"])
+                glim = rng.choice(["dailymax 5h", "dailymax 3h", "weeklymax 12h", "weeklymax 20h", "dailymax 5.5h", "weeklymax 10.6h"])
+                tlim = rng.choice(["", "limits { dailymax 2h }", "limits { weeklymax 6h }", "limits { dailymax 3h }",
+                                   "limits { dailymax 2.6h }", "limits { dailymax 3.5h }"])
+                res_ = rng.choice(["", "", " timingresolution 30min", " timingresolution 15min"])
                 st = rng.choice(["2025-01-06", "2025-01-08", "2025-12-29", "2026-12-28", "2025-01-06-13:00"])
                 effs = [rng.choice([3, 8, 13, 20]) for _ in range(3)]
-                text = (f'project prj "P" {st} +4w {{ timezone "UTC" }}\n'
+                text = (f'project prj "P" {st} +4w {{ timezone "UTC"{res_} }}\n'
                         f'resource team "T" {{ limits {{ {glim} }}\n  resource r0 "r0" {{}}\n  resource r1 "r1" {{}}\n}}\n'
                         f'task box "B" {{ {tlim}\n  task x "x" {{ effort {effs[0]}h allocate r0 }}\n  task y "y" {{ effort {effs[1]}h allocate r1 }}\n}}\n'
                         f'task z "z" {{ effort {effs[2]}h allocate r0 }}\n')
@@ -784,6 +855,42 @@ def main():
                     break
             if dates(proj) != before:
                 fails.append({"clause": "C18:report-changed-schedule", "key": f"C18/{SEED}/{k}", "detail": "", "input": text})
+        # file sub-universe: the generated .csv / .json files read back equal the in-memory renderings, also when cells
+        # contain CSV punctuation (time formats and names with commas / quotes)
+        import csv as _csv
+        import shutil as _sh
+        import tempfile as _tf
+        for k in range(max(4, n // 12)):
+            tf_ = rng.choice(["%Y-%m-%d-%H:%M", "%b %d, %Y %H:%M", "%a, %d %b %Y", "%Y-%m-%d"])
+            nm = rng.choice(["Design", "Design, review", 'The "big" one', "a;b"])
+            nm_tjp = nm.replace('"', "'")
+            text = ('project prj "P" 2025-01-06 +3w { timezone "UTC" }\nresource r1 "r1" {}\n'
+                    f'task a "{nm_tjp}" {{ effort {rng.choice([2, 5, 9])}h allocate r1 }}\n'
+                    'task b "plain" { effort 3h allocate r1 depends a }\n'
+                    f'taskreport rep "rep" {{ formats csv, json columns id, name, start, end timeformat "{tf_}" }}\n')
+            proj = run(text)
+            out = _tf.mkdtemp(prefix="verif_rep_")
+            try:
+                proj.outputDir = out + os.sep
+                rep = [r for r in proj.reports][0]
+                with contextlib.redirect_stdout(io.StringIO()), contextlib.redirect_stderr(io.StringIO()):
+                    rep.generate()
+                mem_csv, mem_json = rep.content.to_csv(), rep.content.to_json()
+                evals += 1
+                record(("file", k), text)
+                fcsv, fjson = os.path.join(out, "rep.csv"), os.path.join(out, "rep.json")
+                if os.path.exists(fcsv):
+                    rows = list(_csv.reader(open(fcsv, newline="")))
+                    if rows != [[str(c) for c in r] for r in mem_csv]:
+                        fails.append({"clause": "C18:csv-file", "key": f"C18/file/{SEED}/{k}", "input": text,
+                                      "detail": f"rep.csv reads back as {rows[1:2]} but the report cells are {mem_csv[1:2]}"})
+                else:
+                    fails.append({"clause": "C18:csv-file", "key": f"C18/file/{SEED}/{k}", "input": text, "detail": "rep.csv not written"})
+                if os.path.exists(fjson):
+                    if json.load(open(fjson)) != json.loads(json.dumps(mem_json, default=str)):
+                        fails.append({"clause": "C18:json-file", "key": f"C18/file/{SEED}/{k}", "input": text, "detail": "rep.json differs from to_json()"})
+            finally:
+                _sh.rmtree(out, ignore_errors=True)
         # second sub-universe: leaf-only report over a tree in which leaves repeat the local ids of containers
         for k in range(n // 3):
             effs = [rng.choice(["2h", "5h", "8h"]) for _ in range(4)]
